@@ -307,7 +307,9 @@ def decide_undischarged(spec, known, report, r, ob, root):
     # an obligation that was discharged on the baseline tree and is no longer discharged on CHANGED sources is reported
     # as a violation without input (the solver's output goes into the replay file); on unchanged sources an
     # `unknown` can only be the solver's doing and stays undecided
-    why = changed_since_baseline(load_baseline(pid), r, None if ob["name"].endswith(("/out-of-subset", "/out-of-subset/F/structure")) else ob["name"])
+    # (a function that left the engine's subset, or a task that was stopped, generated no obligation: that stays undecided)
+    oos = ob["name"].endswith(("/out-of-subset", "/out-of-subset/F/structure"))
+    why = None if oos else changed_since_baseline(load_baseline(pid), r, ob["name"])
     if why:
         payload["baseline"] = why
         path = write_replay(pid, ob["name"], payload)
